@@ -496,6 +496,41 @@ func runProxy(t *testing.T, k *hsKind, c hsCase) (res hsResult) {
 	return res
 }
 
+// cutFeature is the feature signature of a handshake case: where its cuts fall relative to the
+// record header, the hello body, the record boundary and the following record.
+func cutFeature(c hsCase, r hsResult) string {
+	if c.Byte {
+		return "byte-at-a-time"
+	}
+	if len(c.Cuts) == 0 {
+		return "uncut"
+	}
+	var parts []string
+	for _, k := range c.Cuts {
+		switch {
+		case k < 5:
+			parts = append(parts, fmt.Sprintf("hdr%d", k))
+		case k < r.helloLen-1:
+			parts = append(parts, fmt.Sprintf("body(2^%d)", bitsLen(k)))
+		case k == r.helloLen-1:
+			parts = append(parts, "last-byte")
+		case k == r.helloLen:
+			parts = append(parts, "boundary")
+		default:
+			parts = append(parts, fmt.Sprintf("next+%d", k-r.helloLen))
+		}
+	}
+	return strings.Join(parts, ",")
+}
+
+func bitsLen(k int) int {
+	n := 0
+	for ; k > 0; k >>= 1 {
+		n++
+	}
+	return n
+}
+
 func runCase(t *testing.T, ks map[string]*hsKind, c hsCase) hsResult {
 	k := ks[c.Kind]
 	if c.Seam == "tls.Server" {
@@ -561,11 +596,11 @@ func runHandshakePart(t *testing.T, rep *ev.Report, shard, of int, thorough bool
 			{"tls.Server", "go-tls12", "all", "all", true, false},
 			{"tls.Server", "go-tls13-hrr", "all", "", true, false},
 			{"tls.Server", "go-tls13-default-keyshares", "all", "", true, false},
-			{"tls.Server", "utls-chrome106", "all", "restricted", true, false},
+			{"tls.Server", "utls-chrome106", "all", "all", true, false},
 			{"tls.Server", "utls-firefox120", "all", "restricted", true, false},
 			{"tls.Server", "utls-chrome115-pq", "all", "", true, false},
 			{"tls.Server", "utls-ios14", "all", "", true, false},
-			{"proxyserver-h1", "go-tls13", "all", "restricted", true, true},
+			{"proxyserver-h1", "go-tls13", "all", "all", true, true},
 			{"proxyserver-h2", "go-tls13", "all", "restricted", true, true},
 			{"proxyserver-h2", "utls-chrome106", "all", "", true, false},
 			{"proxyserver-h1", "go-tls12", "all", "", true, false},
@@ -578,7 +613,7 @@ func runHandshakePart(t *testing.T, rep *ev.Report, shard, of int, thorough bool
 			{"tls.Server", "go-tls13-default-keyshares", "restricted", "", false, false},
 			{"tls.Server", "utls-chrome106", "all", "", true, false},
 			{"tls.Server", "utls-firefox120", "restricted", "", false, false},
-			{"proxyserver-h1", "go-tls13", "all", "", true, true},
+			{"proxyserver-h1", "go-tls13", "all", "restricted", true, true},
 			{"proxyserver-h2", "go-tls13", "all", "", true, false},
 			{"proxyserver-h2", "utls-chrome106", "restricted", "", false, false},
 		}
@@ -648,7 +683,7 @@ func runHandshakePart(t *testing.T, rep *ev.Report, shard, of int, thorough bool
 		if r.asCut {
 			asCut++
 		}
-		rep.Note("distinct_nontrivial", fmt.Sprintf("B:%s/%s/%04x/%s", c.Seam, c.Kind, c.Ver, r.observed))
+		rep.Note("distinct_nontrivial", fmt.Sprintf("B:%s/%s/%04x/%s", c.Seam, c.Kind, c.Ver, cutFeature(c, r)))
 		if n%499 == 1 {
 			rep.Sample(map[string]any{"part": "B", "case": c, "client_hello_bytes": r.helloLen, "first_flight_bytes": r.flight, "wrapper_read_sizes": r.observed})
 		}
